@@ -371,7 +371,7 @@ fn kinds_signature(sp: &SymProg) -> String {
 
 pub const RULE_C03: &str = "proptest programs: initial state of one key in {absent, present, present numeric, present-but-expired} x 2 clients with 1..2 commands or 3 clients with 1 command from {get, set with cas 0/current/stale/bogus (ttl 0 or 3), delete with cas 0/current/stale/bogus}; every interleaving of the clients at the granularity of the Cache-trait calls (get_by_key, check_if_expired, set, delete, remove, remove_if, flush) and command invocations, on MemoryStore alone and under RandomPolicy with an unreachable limit, is executed by a harness-owned baton scheduler (stateless DFS, exhaustive up to the leaf cap, pseudo-random schedules beyond). Oracle: linearizability search over all total orders consistent with program order and observed real-time precedence, run against the sequential reference model with the observed responses and the final probe. evaluations = executed schedules. non-trivial = a program with a mutation in which two clients' steps actually interleaved. distinct = distinct hash of the program";
 pub const RULE_C04: &str = "as C03 with commands from {add, replace, append, prepend, incr, decr} and {get, set, delete}: 2..3 clients with one command each, every initial state of the key (absent, present non-numeric, present numeric, expired), every interleaving at Cache-trait granularity; linearizability search against the reference model's read-modify-write semantics (exactly one add wins, increments add up and return distinct values, appended fragments all present, no resurrection after delete follow from it). non-trivial = two clients' steps interleaved and at least one mutation";
-pub const RULE_C16: &str = "proptest programs of 2..3 clients with 1..2 commands from all single-key commands, gets/sets on up to 12 other keys (record sizes 1..600), immediate and delayed flush, with and without random eviction under tiny limits (0, 40, 200, 700, 2000 bytes) over a pre-filled store; every interleaving at Cache-trait granularity (exhaustive up to the leaf cap, pseudo-random beyond). Oracle: a granted step must reach its next scheduling point; a client that blocks on a lock is detected through its kernel thread state and the lock holder is scheduled; a step that does not return within 10 s while nothing else can run is a stall (confirmed in a subprocess). Panics inside a command are violations as well. non-trivial = interleaved steps with at least one mutation";
+pub const RULE_C16: &str = "first an exhaustive grid: every single command (every CAS selector, ttl 0/3, create/no-create counters, immediate/delayed flush) x every initial state of the key (absent, present, numeric, expired, expired numeric) x {no policy, eviction limit 0, 2000, unreachable}, next to a second client's get, under every interleaving; then proptest programs of 2..3 clients with 1..2 commands from all single-key commands, gets/sets on up to 12 other keys (record sizes 1..600), immediate and delayed flush, with and without random eviction under tiny limits (0, 40, 200, 700, 2000 bytes) over a pre-filled store; every interleaving at Cache-trait granularity (exhaustive up to the leaf cap, pseudo-random beyond). Oracle: a granted step must reach its next scheduling point; a client that blocks on a lock is detected through its kernel thread state and the lock holder is scheduled; a step that does not return within 10 s while nothing else can run is a stall (confirmed in a subprocess). Panics inside a command are violations as well. non-trivial = interleaved steps with at least one mutation";
 
 pub const ASSUME_L2: &[&str] = &[
     "schedule control stops at the public Cache trait boundary: interleavings inside one MemoryStore method (between two DashMap calls) are only reached by the OS-scheduled stress phase, probabilistically",
@@ -393,6 +393,64 @@ pub fn check_conc(ctx: &mut Ctx, cfg: ConcCfg, strat: fn() -> BoxedStrategy<SymP
                 return EXIT_VIOLATION;
             }
             acc.count("regress_passed", 1);
+        }
+    }
+    if cfg.prop == "C16" {
+        // every single command on every initial state of the key with every CAS selector, alone and next to a
+        // second client's get, with and without an eviction policy: a command that blocks on itself (a lock taken
+        // twice, a map call made under the map's own guard) needs no partner and must not depend on the draw
+        let cas_all = [PCas::Zero, PCas::Current, PCas::Stale, PCas::Bogus];
+        let mut cmds: Vec<PCmd> = vec![PCmd::Get, PCmd::Add, PCmd::Flush { delay: 0 }, PCmd::Flush { delay: 5 }, PCmd::SetOther { k: 1, size: 100 }];
+        for c in cas_all.iter() {
+            for ttl in [0u8, 3] {
+                cmds.push(PCmd::Set { cas: c.clone(), ttl });
+            }
+            cmds.push(PCmd::Delete { cas: c.clone() });
+            cmds.push(PCmd::Replace { cas: c.clone() });
+            cmds.push(PCmd::Append { cas: c.clone() });
+            cmds.push(PCmd::Prepend { cas: c.clone() });
+            for nocreate in [false, true] {
+                cmds.push(PCmd::Incr { d: 1, cas: c.clone(), nocreate });
+                cmds.push(PCmd::Decr { d: 1, cas: c.clone(), nocreate });
+            }
+        }
+        let mut grid: Vec<SymProg> = vec![];
+        for init in [Init::Absent, Init::Present, Init::PresentNum, Init::Expired, Init::ExpiredNum] {
+            for policy in [None, Some(0u64), Some(2000u64), Some(1u64 << 40)] {
+                for c in &cmds {
+                    grid.push(SymProg { init: init.clone(), clients: vec![vec![c.clone()], vec![PCmd::Get]], policy, prefill: 2 });
+                }
+            }
+        }
+        let total = grid.len();
+        let next = std::sync::atomic::AtomicUsize::new(0);
+        let found: std::sync::Mutex<Option<(SymProg, FailInfo)>> = std::sync::Mutex::new(None);
+        let t0 = std::time::Instant::now();
+        std::thread::scope(|s| {
+            for _ in 0..ctx.workers {
+                s.spawn(|| loop {
+                    let i = next.fetch_add(1, std::sync::atomic::Ordering::Relaxed);
+                    if i >= total || found.lock().unwrap().is_some() {
+                        return;
+                    }
+                    let mut rep = run_prog(&cfg, &grid[i], 1);
+                    rep.classes.push("single_command_grid".into());
+                    acc.record(&grid[i], &rep);
+                    if let Some(fi) = rep.fail {
+                        let mut f = found.lock().unwrap();
+                        if f.is_none() {
+                            *f = Some((grid[i].clone(), fi));
+                        }
+                    }
+                });
+            }
+        });
+        acc.inner.lock().unwrap().phases.push(json!({"phase": "single-command-grid", "programs": total, "wall_s": t0.elapsed().as_secs_f64(), "exhaustive": true}));
+        if let Some((sp, fi)) = found.into_inner().unwrap() {
+            report_violation(ctx, "prog", &serde_json::to_value(&sp).unwrap(), &fi);
+            write_evidence(ctx, &acc, rule, ASSUME_L2, 1);
+            print_summary(ctx, &acc);
+            return EXIT_VIOLATION;
         }
     }
     let n = ctx.by(progs_q, progs_t);
